@@ -1,6 +1,7 @@
 // C10 / C03 harness (family `api`): Circuit setters, Circuit::placeGlobal/legalize/placeDetailed with scripted
 // callbacks, and the three export functions, from /repo's working tree.
 //   api gen bz SEED COUNT     busy-protocol scenarios (throw index -1; checks/c10.py derives one run per callback index)
+//   api gen bo SEED COUNT     busy-protocol scenarios with movable cells of orientation INVALID / UNKNOWN, mostly with a failing legalization
 //   api gen ex SEED COUNT     export-function cases (random internal vectors)
 //   api gen fr SEED COUNT     stage-run compositions for the dynamic frame check
 //   api run < cases
@@ -352,6 +353,34 @@ int main(int argc, char **argv) {
         static const int smodes[] = {1, 1, 1, 3, 5, 9, 17, 41, 73, 27, 0, 2};
         static const int pmodes[] = {9, 9, 11, 27, 31, 41, 73, 1};
         int smode = smodes[g.uni(0, 11)], pmode = pmodes[g.uni(0, 7)];
+        printf("BZ %d %d %d %d -1 %d %d %lld %s %s\n", stage, hascb, pvar, effort, smode, pmode, (long long)g.uni(1, 1000000), showRowsCells(t).c_str(), showNets(t).c_str());
+      } else if (what == "bo") {
+        // busy-protocol scenarios whose movable cells carry the SPECIAL orientation values (INVALID = 8, UNKNOWN = 9; setCellOrientation / setSolution
+        // accept every enum value), mostly with a legalization that FAILS after its parameters were accepted: 40 % one movable cell wider than every
+        // row, 30 % over-full (movable row-high cells as wide as the widest row, one more of them than there are rows), 30 % as generated
+        // (utilisation 20-115 %: mostly feasible).  Stage: legalize 45 %, placeDetailed 45 %, placeGlobal 10 %.
+        GenOpts o; o.nets = true; o.utilLo = 20; o.utilHi = 115; o.maxCells = 8; o.turned = g.coin(50);
+        TCircuit t = genCircuit(g, o);
+        long long wmax = 0, rh = t.rows[0][3] - t.rows[0][2]; for (auto &r : t.rows) wmax = std::max(wmax, r[1] - r[0]);
+        auto plain = [](const std::array<long long, 8> &c) { return !c[6] && (c[4] == 0 || c[4] == 1 || c[4] == 4 || c[4] == 5); };
+        auto fresh = [&](long long w) { static const int os[4] = {0, 1, 4, 5}; auto &r = t.rows[g.uni(0, t.rows.size() - 1)];
+          t.cells.push_back({r[0] + g.uni(-2, 2), r[2] + g.uni(-1, 1), w, rh, os[g.uni(0, 3)], g.coin(70) ? 0 : g.uni(1, 4), 0, 1}); };
+        int kind = (int)g.uni(0, 9);
+        if (kind >= 6) {
+          std::vector<size_t> pl; for (size_t i = 0; i < t.cells.size(); ++i) if (plain(t.cells[i])) pl.push_back(i);
+          if (pl.empty()) { fresh(1); pl.push_back(t.cells.size() - 1); }
+          t.cells[pl[g.uni(0, pl.size() - 1)]][2] = wmax + g.uni(1, 5);
+        } else if (kind >= 3) {
+          size_t cnt = 0; for (auto &c : t.cells) if (plain(c) && c[3] == rh) { c[2] = wmax; ++cnt; }
+          while (cnt < t.rows.size() + 1) { fresh(wmax); ++cnt; }
+        }
+        bool any = false;
+        for (auto &c : t.cells) if (plain(c) && g.coin(50)) { c[4] = g.coin(50) ? 8 : 9; any = true; }
+        if (!any) { bool done = false; for (auto &c : t.cells) if (!done && plain(c)) { c[4] = g.coin(50) ? 8 : 9; done = true; } if (!done) { fresh(1); t.cells.back()[4] = g.coin(50) ? 8 : 9; } }
+        int stage = g.coin(10) ? 0 : (int)g.uni(1, 2), hascb = g.coin(90), pvar = g.coin(75) ? 0 : g.coin(40) ? (int)g.uni(1, 6) : (int)g.uni(kPvarBoundaryLo, kPvarBoundaryHi), effort = (int)g.uni(1, 9);
+        static const int smodes[] = {1, 1, 3, 5, 9, 41, 27, 0, 2};
+        static const int pmodes[] = {9, 11, 27, 41, 1, 3};
+        int smode = smodes[g.uni(0, 8)], pmode = pmodes[g.uni(0, 5)];
         printf("BZ %d %d %d %d -1 %d %d %lld %s %s\n", stage, hascb, pvar, effort, smode, pmode, (long long)g.uni(1, 1000000), showRowsCells(t).c_str(), showNets(t).c_str());
       } else if (what == "ex") {
         GenOpts o; o.maxCells = 10; TCircuit t = genCircuit(g, o);
